@@ -228,6 +228,12 @@ def main(prop, level, run, replay=None, argv=None):
                 print("VIOLATION property=%s replay=%s" % (prop, path))
                 print("  %s: %s" % (json.dumps(_jsonable(sig), sort_keys=True), str(detail)[:600]))
                 written += 1
+            tally = {}
+            for sg, _, _ in ctx.violations:
+                kk = json.dumps(_jsonable(sg), sort_keys=True)
+                tally[kk] = tally.get(kk, 0) + 1
+            for kk, n in sorted(tally.items(), key=lambda x: -x[1])[:25]:
+                print("  signature x%d: %s" % (n, kk))
             print("  (%d violating case(s) in total, %d distinct site/kind)" % (
                 len(ctx.violations), len({(s.get("site"), s.get("kind")) for s, _, _ in ctx.violations})))
         if not args.replay:
